@@ -14,7 +14,7 @@
     * `view_ctor_copies`              `array(view)` / `+view` / `view.decay()`: the view's extents and its elements in canonical order, in a fresh block
     * `abs_step_views`                `array(view)`, `A = view` (both overloads) for views of any layout: the documented value of the view
     * `abs_step_conv_stdswap`         assignment from another element type, `std::swap`
-    * `assign_list_in_place_partial`  in-place `assign(first,last)` / `operator=(initializer_list)`: the one case left (see there)
+    * `abs_step_lists`                construction / assignment from nested initializer lists and iterator ranges, in place or not
 -/
 import MultiProofs.OwnStep
 import MultiProofs.OwnObs
@@ -27,7 +27,7 @@ variable {α : Type}
 
 /-- **refinement, one step.**  For every operation of `VOp` (default / extensions / fill / copy (also from another element type,
     unary `+`) / iterator-range construction / construction from a view, move construction, move and copy assignment over any prior
-    state, assignment from a view (both overloads) and from another element type, swap, `std::swap`, clear, reshape,
+    state, assignment from a view (both overloads), from another element type, from nested lists / ranges, swap, `std::swap`, clear, reshape,
     assign(extensions, value), the three reextent overloads, element write, destruction) executed in its domain
     on a pool satisfying the invariant: the invariant holds afterwards and the value of the resulting pool is the documented one. -/
 theorem abs_step (cfg : Cfg α) (p : Pool α) (hi : Inv p) (op : VOp α) (hd : op.InDom p) :
@@ -202,27 +202,20 @@ theorem abs_step_conv_stdswap (cfg : Cfg α) (p : Pool α) (hi : Inv p) (j k : N
       absPool (step cfg p (.stdswap j k)) = upd (upd (absPool p) j (absPool p k)) k (absPool p j)) :=
   ⟨fun hd => step_refines cfg p hi _ hd, fun hd => step_refines cfg p hi _ hd⟩
 
-/-- **`assign(first,last)` / `operator=(initializer_list)` IN PLACE** (same number of rows and same inner extensions).  PARTIAL — the
-    only operation of the model left without a refinement theorem.  Full statement: for a valid array with `count = size()` and rows of
-    the current inner extensions, `assignRange` keeps block and extensions and the elements become `vals`.
-    Proved: every other case of list / range assignment — another shape is construction from the range followed by move assignment
-    (`C06.assign_range_exact` + `move_assign_leaves_empty_valid`), the empty initializer list is `clear` (`C06.clear_empty`);
-    and (this theorem) in place the operation is exactly the row-by-row loop `assignRow` over the `k`-th sub-array, i.e. for D = 1 the
-    element writes `A[first+k] = vals[k]` (`write`, covered by `abs_step`).
-    Missing for D > 1: that the `k`-th row view `A[first+k]` of a row-major array is the contiguous cell range `[k·M, (k+1)·M)` walked in
-    order (C01.index_refines + `Own.elemAddrs_eq` give it; the bookkeeping over the row loop is not done).  Covered by the
-    correspondence run (`ilassign` / `assignr` with `outer=eq inner=eq`, ≈ 10 000 cases per run) and the in-harness reference model. -/
-theorem assign_list_in_place_partial (h : Heap α) (self : Arr) (count : Int) (inner : List Ext) (vals : List α)
-    (hc : count = self.view.size) (hi : count = 0 ∨ Exts.eqv inner (self.view.index self.view.ext.first).exts = true) :
-    assignRange h self count inner vals =
-      (((List.range count.toNat).zip (chunks (Exts.numElements inner).toNat count.toNat vals)).foldl
-          (fun h (kr : Nat × List α) => assignRow h self kr.1 inner kr.2) h, self) ∧
-    (ilAssign h self 0 inner vals = clear h self) := by
-  constructor
-  · unfold assignRange
-    have hcond : count = self.view.size ∧ (count = 0 ∨ Exts.eqv inner (self.view.index self.view.ext.first).exts = true) := ⟨hc, hi⟩
-    rw [if_pos hcond]
-  · simp [ilAssign]
+/-- **construction and assignment from nested initializer lists / iterator ranges** (`array A{…}`, `A = {…}`, `A.assign(first, last)`)
+    with `count` sub-arrays of extensions `inner` and the values `vals`, over any prior state: exactly the requested contents.  With the
+    same number of rows and the same inner extensions the assignment happens in place, row by row (`ref::assign(first)`), and the array
+    keeps its block and its extensions (index bases); otherwise the array is rebuilt from the range (temporary + move assignment) and
+    gets the zero-based extensions of the range; the empty initializer list clears (`listVal`). -/
+theorem abs_step_lists (cfg : Cfg α) (p : Pool α) (hi : Inv p) (k : Nat) (count : Int) (inner : List Ext) (vals : List α) :
+    ((VOp.il k count inner vals).InDom p → Inv (step cfg p (.il k count inner vals)) ∧
+      absPool (step cfg p (.il k count inner vals)) = upd (absPool p) k (some ⟨collapse (rangeExts count inner), vals.map some⟩)) ∧
+    ((VOp.assignr k count inner vals).InDom p → Inv (step cfg p (.assignr k count inner vals)) ∧
+      absPool (step cfg p (.assignr k count inner vals)) = upd (absPool p) k ((absPool p k).map fun x => listVal x count inner vals)) ∧
+    ((VOp.ilassign k count inner vals).InDom p → Inv (step cfg p (.ilassign k count inner vals)) ∧
+      absPool (step cfg p (.ilassign k count inner vals)) =
+        upd (absPool p) k ((absPool p k).map fun x => if count = 0 then emptyVal x.exts.length else listVal x count inner vals)) :=
+  ⟨fun hd => step_refines cfg p hi _ hd, fun hd => step_refines cfg p hi _ hd, fun hd => step_refines cfg p hi _ hd⟩
 
 /-! ### the hypotheses are satisfiable (non-vacuity) -/
 
@@ -245,6 +238,15 @@ example :
     (specRun cfg (fun _ => none) ops 2).map (·.elems) = some [some 2, some 3, some 5, some 6] ∧
     (specRun cfg (fun _ => none) ops 3).map (·.exts) = some [⟨0, 2⟩] ∧
     (specRun cfg (fun _ => none) ops 3).map (·.elems) = some [some 3, some 6] := by
+  decide
+
+/-- lists: a rebased 2×2 array assigned `{{1,2},{3,4}}` keeps its index bases (in place); assigned `{{1,2,3}}` it becomes 1×3 zero-based -/
+example :
+    let cfg : Cfg Int := ⟨true, 0⟩
+    let r1 := specRun cfg (fun _ => none) [.fill 0 [⟨1, 3⟩, ⟨0, 2⟩] 7, .ilassign 0 2 [⟨0, 2⟩] [1, 2, 3, 4]] 0
+    let r2 := specRun cfg (fun _ => none) [.fill 0 [⟨1, 3⟩, ⟨0, 2⟩] 7, .assignr 0 1 [⟨0, 3⟩] [1, 2, 3]] 0
+    r1.map (·.exts) = some [⟨1, 3⟩, ⟨0, 2⟩] ∧ r1.map (·.elems) = some [some 1, some 2, some 3, some 4] ∧
+    r2.map (·.exts) = some [⟨0, 1⟩, ⟨0, 3⟩] ∧ r2.map (·.elems) = some [some 1, some 2, some 3] := by
   decide
 
 example : InDomAll (⟨true, 0⟩ : Cfg Int) Pool.empty [.fill 0 [⟨0, 2⟩, ⟨0, 3⟩] 7, .copy 1 0] := by
